@@ -46,6 +46,9 @@ macro_rules! registry {
             match id { $( $id => $m::run(ctx), )* _ => panic!("unknown property {id}") }
         }
         pub fn replay(id: &str, sub: &str, case: &Value) -> Verdict {
+            if let Some(gsub) = sub.strip_prefix("fuzz-gen:") {
+                return crate::fw::replay_case::<fuzz_entry::Bytes>(case, |b| fuzz_entry::replay_generic(id, gsub, b));
+            }
             if sub.starts_with("fuzz-") {
                 return crate::fw::replay_case::<fuzz_entry::Bytes>(case, |b| fuzz_entry::replay(sub, b));
             }
